@@ -163,6 +163,11 @@ def initial_texture(tex, n, seed):
     rng = np.random.default_rng([SEED, seed, n, sum(map(ord, tex))])
     if tex == "random":
         return None, None
+    if tex == "replica":
+        # grain i is an exact copy of grain i mod 3 (three generic orientations), equal volumes: copies of one grain
+        # see the same arithmetic in every elementwise step of an update and must stay bit-identical
+        base = Rotation.random(3, random_state=int(rng.integers(1 << 30))).as_matrix()
+        return base[np.arange(n) % 3].copy(), np.full(n, 1.0 / n)
     if tex == "nonuniform":
         f = np.array([0.9] + [0.1 * 0.5 ** (k + 1) for k in range(n - 1)])
         f /= f.sum()
@@ -212,6 +217,15 @@ def exc_class(e):
     if isinstance(e, RuntimeError):
         return "RuntimeError"
     return "other:" + type(e).__name__
+
+
+def replica_ok(o, f, n):
+    """copies of one grain (i mod 3 equal) hold bit-identical orientations and volumes"""
+    o, f = np.asarray(o), np.asarray(f)
+    if o.shape != (n, 3, 3) or f.shape != (n,):
+        return False
+    idx = np.arange(n) % 3
+    return bool(np.array_equal(o, o[idx]) and np.array_equal(f, f[idx]))
 
 
 def snapshot_measures(o, f, n):
@@ -311,6 +325,8 @@ class World:
         m = pd.Mineral(phase=c["phase"], fabric=c["fabric"], regime=c["regime"], n_grains=n, seed=act["seed"], **kw)
         name = act["m"]
         self.minerals[name] = m
+        self.texture = getattr(self, "texture", {})
+        self.texture[name] = act["tex"]
         self.seed[name] = act["seed"]
         self.F[name] = self.F0.copy()
         self.Fexp[name] = self.F0.copy()
@@ -475,12 +491,15 @@ class World:
         n = int(m.n_grains)
         if len(self.fids.get(name, [])) != len(m.fractions):
             self.refresh_fids(name)
+        v = snapshot_measures(m.orientations[-1], m.fractions[-1], n)
+        if getattr(self, "texture", {}).get(name) == "replica":
+            v["replicaOK"] = replica_ok(m.orientations[-1], m.fractions[-1], n)
         return dict(
             cfg=dict(phase=int(m.phase), fabric=int(m.fabric), regime=int(m.regime), n=n),
             odig=[sha(o) for o in m.orientations],
             fdig=list(self.fids[name]),
             nf=len(m.fractions),
-            v=snapshot_measures(m.orientations[-1], m.fractions[-1], n),
+            v=v,
             dstrain_e6=cap(dstrain * 1e6) if grew else 0,
         )
 
@@ -757,7 +776,7 @@ def validate_trace(events, scratch_dir, timeout=900):
 # ---------------------------------------------------------------- shared driver for Layer-B checks
 TRACE_CLAUSES = {
     "C07": ("update-accepted-where-spec", "update-raised", "failed-update-touched-history", "wrong-error-class", "null-forcing-changed-content", "bad-arguments-not-refused", "bad-arguments-touched-history"),
-    "C01": ("history-rewritten", "not-one-snapshot-per-update", "snapshot-shape", "snapshot-not-finite", "negative-volume", "volumes-do-not-sum-to-1", "orientation-entry-outside-unit-interval", "orientation-left-handed", "orthonormality-beyond-budget"),
+    "C01": ("history-rewritten", "not-one-snapshot-per-update", "snapshot-shape", "snapshot-not-finite", "negative-volume", "volumes-do-not-sum-to-1", "orientation-entry-outside-unit-interval", "orientation-left-handed", "orthonormality-beyond-budget", "copies-of-one-grain-diverged"),
     "C17": ("loaded-state-differs-from-archive", "archive-differs-after-save", "corrupt-save-not-refused", "corrupt-save-wrote", "no-spec-action-LoadBadName"),
     "C08": ("update-all-post-state-differs",),
     "C10": ("voigt-accepted-where-spec-rejects", "voigt-rejected-where-spec-accepts", "voigt-touched-a-mineral"),
